@@ -256,6 +256,19 @@ def run_stages(case, ses):
             ('taylor-row', 'lra', v[0] >= rv(Fraction(20 / 2 ** L / 24)) * x2 + rv(Fraction(23 / 24)) * a2 + fgh[0] / 4
              + rv(Fraction(1 / 24)) * fgh[2]),   # the doubles rsome writes (1e-17 from the exact Taylor coefficients)
         ]
+        # interfaces that hand a cone over as the quadratic constraint tail'tail <= head^2 (Gurobi) rely on the head being
+        # sign-constrained by the program itself: rows and bounds alone must imply head >= 0 for every appended cone
+        Blin = G.row_cons(vs, rows) + G.bound_cons(vs, cols)
+        for ci, q in enumerate(cones):
+            res, model = ses.oblige('%s/head-sign-%d' % (label, ci), Blin, [vs[q[0]] < 0], kind='stage-head-sign', twin=(ci == 0))
+            if res == 'sat':
+                data = dict(k='stages', case=case, lemma='head-sign', cone=bi, head=int(q[0]))
+                if replay(data):
+                    finding(ses, 'C18:stage:head-sign', '%s: the head of appended cone %d (column %d) is not sign-constrained by rows and '
+                            'bounds: read as tail\'tail <= head^2 (Gurobi interface) the cone is vacuous for head < 0'
+                            % (label, ci, q[0]), data, 'rsv.props.c18:replay')
+                else:
+                    raise HarnessError('head-sign counterexample does not reproduce: %s' % label)
         for d in range(L - 1):
             lemmas.append(('square-%d' % d, 'nra', v[d + 1] * a2 >= v[d] * v[d]))
         lemmas.append(('square-last', 'nra', t * a2 >= v[L - 1] * v[L - 1]))
@@ -349,21 +362,37 @@ def run_grid(case, ses):
     import rsome as rso
     pts = [-4, -3, -1.5, -0.5, 0, 0.75, 2, 3.5, 4]
     worst = 0.0
+    ifaces = [('eco', eco_solver)]
+    try:
+        from rsome import grb_solver
+        ifaces.append(('grb', grb_solver))      # states cones as quadratic constraints: relies on sign-constrained heads
+    except Exception:  # noqa
+        pass
     for a in pts:
         for c in (1.0, 2.0):
+          for iname, solver in ifaces:
+            if iname != 'eco' and c != 1.0 and a not in (-4, 0.75, 4):
+                continue
             with quiet():
                 m = ro.Model()
                 x = m.dvar()
                 t = m.dvar()
                 m.min(t)
                 m.st(rso.pexp(x, c) <= t, x == a * c)
-                m.soc_solve(eco_solver, display=False)
+                try:
+                    m.soc_solve(solver, display=False)
+                except Exception as e:  # noqa
+                    if iname != 'eco':
+                        ses.stats.notes.append('soc_solve via %s raised: %s' % (iname, str(e)[:80]))
+                        continue
+                    raise
             ses.stats.obligations += 1
-            ses.stats.kinds['grid-soc_solve'] = ses.stats.kinds.get('grid-soc_solve', 0) + 1
+            ses.stats.kinds['grid-soc_solve-' + iname] = ses.stats.kinds.get('grid-soc_solve-' + iname, 0) + 1
+            key = 'C18:grid' if iname == 'eco' else 'C18:grid-' + iname
             try:
                 val = m.get()
             except Exception as e:
-                finding(ses, 'C18:grid', 'soc_solve fails at exponent %g: %s' % (a, e), dict(k='grid', a=a, c=c), 'rsv.props.c18:replay')
+                finding(ses, key, 'soc_solve (%s) fails at exponent %g: %s' % (iname, a, e), dict(k='grid', a=a, c=c, iface=iname), 'rsv.props.c18:replay')
                 continue
             exact = c * math.exp(a)
             rel = abs(val - exact) / exact
@@ -371,8 +400,8 @@ def run_grid(case, ses):
             if rel <= 1e-3:
                 ses.stats.discharged += 1
             else:
-                finding(ses, 'C18:grid', 'soc_solve at exponent %g (scale %g): %g vs exact %g (relative error %.3g)'
-                        % (a, c, val, exact, rel), dict(k='grid', a=a, c=c), 'rsv.props.c18:replay')
+                finding(ses, key, 'soc_solve (%s) at exponent %g (scale %g): %g vs exact %g (relative error %.3g)'
+                        % (iname, a, c, val, exact, rel), dict(k='grid', a=a, c=c, iface=iname), 'rsv.props.c18:replay')
     ses.stats.programs += len(pts) * 2
     ses.stats.nontrivial.add('grid')
     ses.stats.nontrivial.add('grid-scale2')
@@ -449,6 +478,14 @@ def replay(data, verbose=False):
         return True
     if k == 'stages':
         case = data['case']
+        if data.get('lemma') == 'head-sign':
+            with quiet():
+                m = models()[case['model']]()
+                g = _strip_copy(m.do_math()).to_socp(case['degree'], tuple(case['cuts']))
+            lb = np.array(g.lb, dtype=float).reshape(-1)[data['head']]
+            if verbose:
+                print('real to_socp(): lower bound of cone head column %d is %r' % (data['head'], lb))
+            return not (lb >= 0)
         if 'point' not in data:
             return True
         with quiet():
